@@ -182,3 +182,5 @@ Definition c03_premises (okNb : N -> bool) (c : rcfg) (g : graph) : option (bool
     end
   end.
 
+(** class sizes for which the binary64 laws hold ([Proofs/FreqLaws.okN53]) *)
+Definition okN53b (d : N) : bool := (0 <? d)%N && (d <? 2 ^ 53)%N.
